@@ -394,6 +394,15 @@ func c20Options(p *Prog, r *Report) {
 			}
 		}
 		r.Check(ok && neg != "", R, t[0], f.Pos(), "stores only under "+t[2]+"; otherwise an error", t[0]+" overwrites an earlier value instead of rejecting the conflicting option: "+guardsOf(st))
+		// success means recorded: the stored value doubles as the "already given" mark, so a
+		// successful return that skipped the store lets a second, conflicting option through
+		var unrec Sel
+		for _, e := range f.Ev("return", "") {
+			if len(e.Args) == 1 && e.Args[0] == "nil" && !(Sel{e}).DominatedBy(st) {
+				unrec = append(unrec, e)
+			}
+		}
+		r.Check(len(unrec) == 0, R, t[0]+"/success-means-recorded", unrec.Pos(p), "every successful return has stored the value", t[0]+" can return success without recording the value: the option is not remembered as given, so a later conflicting one is accepted and wins")
 	}
 	gopt := q.Fn(R, "macat", "App", "getOptions")
 	if gopt.OK() {
